@@ -329,8 +329,8 @@ Definition in_domain (c : call) : bool :=
   match c_fn c with
   | FFind | FPosition => not_test_not (c_test c)                       (* KF :test-not *)
   | FFindIf | FPositionIf => true
-  | FCount => not_test_not (c_test c) && seq_ascii (c_seq c)          (* KF count on a non-ASCII string *)
-  | FCountIf => seq_ascii (c_seq c)
+  | FCount => not_test_not (c_test c)
+  | FCountIf => true
   | FRemove | FDelete => not_test_not (c_test c) && count_not_nil (c_count c)    (* KF :count nil *)
   | FRemoveIf | FDeleteIf => count_not_nil (c_count c)
   | FSubstitute | FNsubstitute => not_test_not (c_test c) && count_not_num (c_count c)   (* KF :count counts looks *)
